@@ -79,6 +79,18 @@ func scenarios(c *vlib.Ctx) []*slib.Scn {
 			add("serial", modules.C07Params{Scripts: [][]string{sq}, Tasks: 2, Body: "long2", Serial: true}, vlib.Pick(c, 1, 2))
 		}
 	}
+	// a short maximum delay on the long-running task 2: its deadline passes while it runs and another task waits
+	for _, x := range []string{"q2", "p2", "a2"} {
+		for _, y := range []string{"q1", "p1", "a1", "s51"} {
+			add("serial", modules.C07Params{Scripts: [][]string{{"md2", x, "w", y}}, Tasks: 2, Body: "long2", Serial: true}, vlib.Pick(c, 1, 2))
+		}
+	}
+	// schedule / cancel on two tasks: every sequence of three calls (a cancelled entry must not hold up the schedule)
+	for _, sq := range seqs([]string{"s51", "s1001", "c1", "s52", "s1002", "c2"}, 3) {
+		if len(sq) == 3 {
+			add("schedule-cancel", modules.C07Params{Scripts: [][]string{sq}, Tasks: 2, Body: "plain"}, vlib.Pick(c, 1, 1))
+		}
+	}
 	// other task bodies
 	for _, body := range []string{"requeue", "requeue-wait", "long"} {
 		for _, sq := range seqs(t1, 2) {
@@ -116,7 +128,7 @@ func scenarios(c *vlib.Ctx) []*slib.Scn {
 func main() {
 	vlib.Main("C07", "model_checking", func(c *vlib.Ctx) {
 		c.Rule("stateless exploration of all interleavings within a deviation bound of the real modules package (source-instrumented, queue handler, schedule handler and microtask scheduler run as threads, virtual clock): " +
-			"every sequence of <= 2 task API calls (Queue, QueuePrioritized, StartASAP, Schedule +5s/+100s/zero, MaxDelay(0), Cancel) on two tasks and <= 3 on one task by one submitter, two submitters colliding on one task, self-requeueing and long-running bodies, a task submitted again while another one runs (one after the other), and every sequence of 2-3 queueing calls over three tasks behind a blocker task (order clause); horizon 10 virtual minutes; " +
+			"every sequence of <= 2 task API calls (Queue, QueuePrioritized, StartASAP, Schedule +5s/+100s/zero, MaxDelay(0), Cancel; MaxDelay(10s) in the serial family) on two tasks and <= 3 on one task by one submitter, two submitters colliding on one task, self-requeueing and long-running bodies, a task submitted again while another one runs (one after the other), every 3-call schedule/cancel sequence over two tasks, and every sequence of 2-3 queueing calls over three tasks behind a blocker task (order clause); horizon 10 virtual minutes; " +
 			"distinct_nontrivial = distinct observation traces (task begin/end order and virtual times) per scenario")
 		c.Assume("sequential consistency; the unlocked accesses flagged by the authors in executeWithLocking are not separate scheduling points; a submission call concurrent with Cancel or Schedule(zero) may or may not take effect")
 		slib.Run(c, scenarios(c), slib.Opts{})
